@@ -1,7 +1,7 @@
 SPECIFICATION Spec
 CONSTANTS
   MaxLen = 5
-  Alphabet = {"{", "}", ":", "0", "1", "a", "x", "?", "$", ".", "*", "<", "+", "#", " ", "_", "U2", "U3"}
+  Alphabet = {"{", "}", ":", "0", "1", "a", "x", "?", "$", ".", "*", "<", "+", "#", " ", "_", "U2", "U3", "W3"}
   EmitCases = TRUE
 INVARIANTS
   P_C18_Progress
